@@ -692,8 +692,8 @@ fn gen_directed_f3(seed: u64) -> Scn {
 pub fn run(ctx: &Ctx) -> ! {
     let ws = words();
     let nwords = ws.len() as u64; // 258
-    let reps = ctx.pick(3u64, 40);
-    let nrandom = ctx.pick(1200u64, 40_000);
+    let reps = ctx.pick(10u64, 60);
+    let nrandom = ctx.pick(8000u64, 120_000);
     let ndirected = 8u64;
     let total = nwords * reps + nrandom + ndirected;
     let build = move |c: &Ctx, idx: u64| -> (Scn, String, u64) {
